@@ -49,8 +49,8 @@ func nextNonce() int64 { return nonce.Add(1) }
 // classes per kind. "accept" classes are the ones the native authenticator type must accept.
 var (
 	basicClasses  = []string{"valid", "wrongpw", "wronguser", "colonpw", "nocolon", "badb64"}
-	jwtClasses    = []string{"valid", "validnokid", "badsig", "expired", "notyet", "wrongiss", "wrongaud", "unknownkid", "hs256", "unsupalg", "badpayload", "jwks500", "jwksgarbage", "jwksdrop", "meta500", "issbreaksurl", "noiss", "issnotstring"}
-	opaqueClasses = []string{"valid", "inactive", "expired", "wrongiss", "wrongaud", "nosub", "e500", "garbage", "drop"}
+	jwtClasses    = []string{"valid", "validnokid", "badsig", "expired", "notyet", "wrongiss", "wrongaud", "unknownkid", "hs256", "unsupalg", "badpayload", "jwks500", "jwksgarbage", "jwksdrop", "meta500", "issbreaksurl", "noiss", "issnotstring", "nbfoutofrange", "expoutofrange"}
+	opaqueClasses = []string{"valid", "inactive", "expired", "wrongiss", "wrongaud", "nosub", "nbfoutofrange", "expoutofrange", "e500", "garbage", "drop"}
 	sessClasses   = []string{"valid", "denied", "inactive", "expired", "nosub", "e500", "garbage", "drop"}
 	junkClasses   = []string{"plain", "threedots", "blank"}
 )
@@ -84,6 +84,32 @@ func statusIssuers() []any {
 		out = append(out, issJWKSStatus+strconv.Itoa(c))
 	}
 	return out
+}
+
+// extremeDates: NumericDate values (RFC 7519: "a JSON numeric value") far outside of what a 64 bit integer, a float64 or
+// any time library holds. A correctly signed token / an introspection response that is not valid before such a date
+// (class "nbfoutofrange") or expired at the negative of it (class "expoutofrange") was found and is not acceptable.
+var extremeDates = []string{"1e19", "9223372036854775808", "1E+25", "123456789012345678901234567890", "1.7976931348623157e308", "1e400", "1e999999"}
+
+// extremeDate: one of extremeDates (chosen by salt), negative: its negative.
+func extremeDate(negative bool, salt int64) json.RawMessage {
+	if salt < 0 {
+		salt = -salt
+	}
+	d := extremeDates[salt%int64(len(extremeDates))]
+	if negative {
+		d = "-" + d
+	}
+	return json.RawMessage(d)
+}
+
+// saltOf: a number that is a function of the string only.
+func saltOf(s string) int64 {
+	var h int64
+	for i := 0; i < len(s); i++ {
+		h = (h*31 + int64(s[i])) & 0xffffffff
+	}
+	return h
 }
 
 // sizes of credential values: "" = as short as the kind allows, the others are padded to just above the named size.
@@ -228,6 +254,12 @@ func (m *minter) jwt(class, sub string, minLen int) string {
 	case "issnotstring":
 		// RFC 7519: iss is a StringOrURI; a number, a list or an object is not an issuer name
 		claims["iss"] = []any{42, []string{issOK}, map[string]any{"name": issOK}, true}[nextNonce()%4]
+	case "nbfoutofrange":
+		// correctly signed, never valid before a date beyond every integer range
+		claims["nbf"] = extremeDate(false, nextNonce())
+	case "expoutofrange":
+		// correctly signed, expired at a date below every integer range
+		claims["exp"] = extremeDate(true, nextNonce())
 	case "badpayload":
 	default:
 		switch ep, code, ok := statusOf(class); {
